@@ -395,7 +395,7 @@ func first(a, _ []byte) []byte { return a }
 //@     invariant forall(x, 0, 256, n48.keys[x] == ite(x < i && n256.children[x].pointer != nil, cntP(n256.children, x) + 1, 0))
 //@     invariant forall(x, 0, 256, implies(x < i && n256.children[x].pointer != nil, n48.children[cntP(n256.children, x)].pointer == n256.children[x].pointer && n48.children[cntP(n256.children, x)].tag == n256.children[x].tag))
 //@     invariant forall(j, 0, 10, n48.prefix[j] == n256.prefix[j])
-//@     invariant forall(j, 0, 48, implies(n48.children[j].pointer != nil, okRef(n48.children[j])))
+//@     invariant forall(j, 0, 48, implies(n48.children[j].pointer != nil, okChild(n48, n48.children[j])))
 //@     decreases 256 - i
 
 //@ func (*node48).deleteChild
